@@ -88,7 +88,7 @@ def run_one(m, props_filter, validate, keep, tier):
         env = dict(os.environ, VERIF_REPO=root, VERIF_EVIDENCE_DIR=os.path.join(base, "evidence"))
         props = m["props"] if not props_filter else [p for p in m["props"] if p in props_filter]
         if m.get("kind") == "preserving":
-            props = props_filter or m["props"]
+            props = props_filter or ["C%02d" % i for i in range(1, 21)]
         outs = {}
         for p in props:
             r = subprocess.run([os.path.join(VERIF, "bin", "check"), p, "--tier", tier], env=env,
@@ -140,7 +140,7 @@ def main():
             tier = args[i + 1]
     ms = [m for m in mutants.MUTANTS if (only is None or m["id"] in only) and not (m.get("skip") and only is None)]
     if props_filter and only is None:
-        ms = [m for m in ms if m.get("kind") == "preserving" or set(m["props"]) & set(props_filter)]
+        ms = [m for m in ms if (m.get("kind") == "preserving" and "--with-preserving" in args) or set(m["props"]) & set(props_filter)]
     results = []
     with concurrent.futures.ThreadPoolExecutor(max_workers=jobs) as ex:
         futs = [ex.submit(run_one, m, props_filter, validate, keep, tier) for m in ms]
